@@ -970,7 +970,7 @@ impl Engine for AllocEngine {
         case_strategy(self.prop == "C16", max_ops)
     }
     fn quick_cases(&self) -> usize {
-        6_000
+        if self.prop == "C16" { 4_000 } else { 6_000 }
     }
     fn thorough_cases(&self) -> usize {
         150_000
